@@ -60,7 +60,7 @@ func main() {
 	dir, seed, thorough := cases.Args()
 	r := cq.NewRNG(seed)
 	s := cases.New("C06", dir, "LW.Corr.C06",
-		"per payload kind: all byte strings of 1-byte payloads (exhaustive), 2-byte payloads exhaustive in the thorough tier and 2,048 sampled + all 0x00/0xff/one-hot patterns in quick, boundary+random for 3-5 byte payloads, wrong lengths; encode of in-range values (exhaustive where the in-range space is <= 4096) and out-of-range values; all 512 (direction, CID) registry lookups; frame headers, join payloads and CFList in frames.go. Every case distinct by construction (distinct = distinct printed case).")
+		"per payload kind: all byte strings of 1-byte payloads (exhaustive), 2-byte payloads exhaustive in the thorough tier and 2,048 sampled + all 0x00/0xff/one-hot patterns in quick, boundary+random for 3-5 byte payloads, wrong lengths; encode of in-range values (exhaustive where the in-range space is <= 4096) and out-of-range values; all 512 (direction, CID) registry lookups; frame headers, join payloads and CFList in frames.go, including 16 CFList octets decoded and encoded again (encoded lists with the RFU octets 12..14 of the channel-mask type set, arbitrary octets of both types, unknown types, wrong lengths). Every case distinct by construction (distinct = distinct printed case).")
 	s.ShardSize = 700
 	// registry: all 512 (direction, CID)
 	for _, up := range []bool{false, true} {
